@@ -41,6 +41,12 @@ class Generator:
         self.backend = backend
         self.source = source
         self.log = []
+        self.picks = []
+
+    def replayer(self, prefix, backend=None):
+        """a generator that will return exactly the picks this one has returned so far (an 'identically seeded' twin)"""
+        src = {"%s.pick%d" % (prefix, i): v for i, v in enumerate(self.picks)}
+        return Generator(self.stream, backend=backend if backend is not None else self.backend, source=src, prefix=prefix)
 
     def reset(self):
         self.count = self.npicks = self.ndraws = 0
@@ -122,11 +128,15 @@ class Generator:
         self.npicks += 1
         if self.concrete:
             v = int(self.source.get(name, 0))
-            return v if 0 <= v < n else 0
+            v = v if 0 <= v < n else 0
+            self.picks.append(v)
+            return v
         eng = E.cur()
         v = eng._register(name, z3.Int(name))
         eng.solver.add(z3.And(v >= 0, v < n))
-        return eng.concretize(v)
+        r = eng.concretize(v)
+        self.picks.append(r)
+        return r
 
     def _dtcode(self, a):
         if isinstance(a, ndarray):
@@ -210,8 +220,8 @@ class SeedChild:
 
 
 class _SpawnList:
-    def __init__(self, seed, n):
-        self.seed, self.n = seed, n
+    def __init__(self, seed, n, offset=0):
+        self.seed, self.n, self.offset = seed, n, offset
 
     def __len__(self):
         return int(self.n)
@@ -222,15 +232,19 @@ class _SpawnList:
             raise IndexError("list index out of range")
         if bool(i < 0):
             i = i + self.n
-        return SeedChild(self.seed, i)
+        return SeedChild(self.seed, i + self.offset)
 
 
 class SeedSequence:
     def __init__(self, entropy=None):
         self.entropy = entropy
+        self.n_children_spawned = 0
 
     def spawn(self, n):
-        return _SpawnList(self.entropy, n)
+        # numpy: spawning is stateful - the children of a second spawn() continue where the first stopped
+        r = _SpawnList(self.entropy, n, self.n_children_spawned)
+        self.n_children_spawned = self.n_children_spawned + n
+        return r
 
     def generate_state(self, n):
         return [("state", self.entropy, i) for i in range(n)]
@@ -324,6 +338,11 @@ def logsumexp(a, axis=None):
         terms = [v for v in vals if not (isinstance(v, float) and v == ninf)]
         if not terms:
             return ninf
+        if np.CONCRETE_MATH and all(isinstance(v, (int, float)) for v in terms):
+            m = max(terms)  # concrete validation mode: the numerically stable evaluation scipy uses
+            if m == float("inf"):
+                return m
+            return m + _math.log(sum(_math.exp(v - m) for v in terms))
         s = None
         for v in terms:
             e = np.exp(v)
